@@ -5,6 +5,7 @@ import (
 	"bytes"
 	"errors"
 	"fmt"
+	"os"
 	"reflect"
 	"unsafe"
 
@@ -140,7 +141,13 @@ func readFileImpl(g *GT, file []byte, cbFail int, buffered bool) (res fileRes) {
 	if buffered {
 		rd = bufio.NewReaderSize(bytes.NewReader(file), 16)
 	}
-	err := avro.ReadFile(rd, reflect.New(rt).Elem().Interface(), func(val unsafe.Pointer, rb *avro.ResourceBank) error {
+	// out is a struct value or (with the buffered reader) a pointer to one: the pointer
+	// form decodes into the caller's own variable
+	var out any = reflect.New(rt).Elem().Interface()
+	if buffered {
+		out = reflect.New(rt).Interface()
+	}
+	err := avro.ReadFile(rd, out, func(val unsafe.Pointer, rb *avro.ResourceBank) error {
 		v := reflect.New(rt).Elem()
 		v.Set(reflect.NewAt(rt, val).Elem())
 		res.Vals = append(res.Vals, v)
@@ -288,6 +295,11 @@ func runC07(r *Run) {
 			r.Fail(id, "valid-rejected", fmt.Sprintf("valid file: %s %v", res.Class, res.Err), desc)
 		} else {
 			checkValues(r, id, gf, res, total, desc, "valid-records")
+		}
+
+		// (1a) FileSchema on the same file (from disk): the schema the header carries
+		if i%5 == 0 {
+			c07FileSchema(r, gf, desc)
 		}
 
 		// (1b) the same file while the callback reads another valid file to its end at every record
@@ -570,5 +582,46 @@ func runC08(r *Run) {
 				checkValues(r, id, gf, res, want, d2, "truncation-records")
 			}
 		}
+	}
+}
+
+// c07FileSchema: avro.FileSchema(path) returns the schema of the header (compared as
+// parsed schemas with what SchemaFromString gives for the header's avro.schema entry);
+// a file cut inside its header is an error.
+func c07FileSchema(r *Run, gf *genFileT, desc map[string]any) {
+	f, err := os.CreateTemp("", "avro-c07-*.avro")
+	if err != nil {
+		return
+	}
+	defer os.Remove(f.Name())
+	f.Write(gf.file)
+	f.Close()
+	call := func(path string) (s avro.Schema, err error) {
+		defer func() {
+			if p := recover(); p != nil {
+				err = fmt.Errorf("PANIC: %v", p)
+			}
+		}()
+		return avro.FileSchema(path)
+	}
+	got, err := call(f.Name())
+	want, werr := avro.SchemaFromString(string(gf.ct.SchemaJSON))
+	r.Count("fileschema")
+	switch {
+	case isPanicErr(err):
+		r.Fail(-1, "fileschema", "FileSchema panics on a valid file: "+err.Error(), desc)
+	case err != nil:
+		r.Fail(-1, "fileschema", "FileSchema fails on a valid file: "+err.Error(), desc)
+	case werr == nil && schemaJSON(got) != schemaJSON(want):
+		r.Fail(-1, "fileschema", "FileSchema returns "+schemaJSON(got)+", the header carries "+schemaJSON(want), desc)
+	}
+	// cut inside the header
+	cut := gf.file[:r.Rng.Intn(gf.ct.HeaderLen)]
+	os.WriteFile(f.Name(), cut, 0o600)
+	if _, err := call(f.Name()); err == nil || isPanicErr(err) {
+		r.Fail(-1, "fileschema", fmt.Sprintf("FileSchema on a file cut %d bytes into its header: err=%v", len(cut), err), desc)
+	}
+	if _, err := call(f.Name() + ".does-not-exist"); err == nil || isPanicErr(err) {
+		r.Fail(-1, "fileschema", fmt.Sprintf("FileSchema on a missing file: err=%v", err), desc)
 	}
 }
